@@ -445,7 +445,10 @@ MANIFEST_ENTRY = {
             'invariant over the drain loop), buffers an early result under its own index, never drops or reorders queued items, '
             'and finishes exactly when all were released; _set_length finishes at once if everything was already released; '
             'next() hands out the oldest queued item, raises at a failed item\'s position and leaves the rest queued in order, '
-            'and stops only when everything was handed out; IMapUnorderedIterator._set queues every result once as it arrives.  '
+            'and stops only when everything was handed out; when it has to block (variant wait: wait() may return with any state '
+            'the other threads\' _set / _set_length can leave within the class invariant) the outcome is decided by the state found '
+            'on wake-up -- the oldest item queued meanwhile, StopIteration when the wake-up was the end of the iteration, '
+            'TimeoutError only when there is still nothing and it is not over; IMapUnorderedIterator._set queues every result once as it arrives.  '
             'Pool.imap / imap_unordered: one task sequence is queued, a new handle is registered, and what the caller gets back '
             'goes on after a failing item for chunksize 1 (it is the handle whose next() is proved above); for chunksize > 1 it is '
             'a generator expression, which the first failing chunk finishes -- refuted by the language rule, KNOWN-FINDING D11a / '
